@@ -108,7 +108,7 @@ package synchronizer
 //@   ensures [signalled] s.state.view != old(s.state.view) ==> tracelen(added) > old(tracelen(added)) && istype(traceev(added, 0, old(tracelen(added))), hotstuff.ViewChangeEvent) && as(traceev(added, 0, old(tracelen(added))), hotstuff.ViewChangeEvent).View == s.state.view
 //@   ensures [not-signalled-otherwise] s.state.view == old(s.state.view) ==> tracelen(added) == old(tracelen(added))
 //@   ensures [inv] swf(s)
-//@   modifies s.state.view, s.state.highQC, s.lastTimeout, s.timer, trace(added)
+//@   modifies s.state.view, s.state.highQC, s.lastTimeout, s.timer, s.voter.lastVotedView, s.proposer.lastProposed, trace(added)
 //@   preserves @std
 
 //@ interface TimeoutRuler.RemoteTimeoutRule
@@ -127,5 +127,5 @@ package synchronizer
 //@   ensures [collected-once-or-rejected] (tracelen(tadd) == old(tracelen(tadd)) + 1 && traceat(tadd, 0, old(tracelen(tadd))) == timeout.ID && traceat(tadd, 1, old(tracelen(tadd))) == timeout.View && tracelen(tlog) == old(tracelen(tlog))) || (tracelen(tadd) == old(tracelen(tadd)) && tracelen(tlog) == old(tracelen(tlog)) + 1)
 //@   ensures [view-forward] s.state.view >= old(s.state.view) && s.state.view <= old(s.state.view) + 2
 //@   ensures [inv] swf(s)
-//@   modifies s.state.view, s.state.highQC, s.lastTimeout, s.timer, s.timeouts.timeouts, s.timeouts.timeouts[*], trace(added), trace(tadd), trace(tlog), alloc
+//@   modifies s.state.view, s.state.highQC, s.lastTimeout, s.timer, s.voter.lastVotedView, s.proposer.lastProposed, s.timeouts.timeouts, s.timeouts.timeouts[*], trace(added), trace(tadd), trace(tlog), alloc
 //@   preserves @std
